@@ -13,7 +13,7 @@ code WITHOUT the one-line fix (repo-patches/fix-C11-reset-leaves-count.diff) the
 `reset_without_fix_breaks_*` below are the kernel-checked negative witnesses (DESIGN §6 F4), replayed
 on the real code by stream c11. `reset_fixed_in_source` (Props/C11Fix.lean) is the proof obligation that the fix is present.
 -/
-import FuelVerif.Lemmas.BinaryMerkle
+import FuelVerif.Lemmas.BinaryMerkleStore
 namespace FuelVerif.BMT
 open FuelVerif
 
@@ -51,60 +51,78 @@ def C11Statement : Prop :=
     ops.length < 2 ^ 63 → LoadsRecorded [] ops →
     ∃ t, Tree.runWith true H (Tree.new storage0) ops = .ok t ∧ FreshLike H (absRun [] ops) t
 
-/-- invariant of histories without reload: stack = MMR peaks of the abstract leaves, count = their number -/
-theorem run_inv (H : HashFn) : ∀ (ops : List Op) (L : List Bytes) (t : Tree),
-    (∀ op ∈ ops, op.isLoad = false) →
-    Stk (mth H) 1 0 L t.nodes → t.leavesCount = L.length → L.length + ops.length < 2 ^ 63 →
-    ∃ t', Tree.runWith true H t ops = .ok t' ∧ Stk (mth H) 1 0 (absRun L ops) t'.nodes ∧
-      t'.leavesCount = (absRun L ops).length
-  | [], L, t, _, hst, hc, _ => ⟨t, rfl, hst, hc⟩
-  | .push d :: ops, L, t, hno, hst, hc, hb => by
-    simp only [List.length_cons] at hb
-    obtain ⟨t1, h1, hst1, hc1⟩ := treePush_stk H d hst hc (by omega)
-    obtain ⟨t2, h2, hst2, hc2⟩ := run_inv H ops (L ++ [d]) t1 (fun op hop => hno op (List.mem_cons_of_mem _ hop)) hst1 hc1
-      (by simp only [List.length_append, List.length_singleton]; omega)
-    exact ⟨t2, by simp only [Tree.runWith, Tree.stepWith, h1, h2], hst2, hc2⟩
-  | .reset :: ops, L, t, hno, _, _, hb => by
-    simp only [List.length_cons] at hb
-    obtain ⟨t2, h2, hst2, hc2⟩ := run_inv H ops [] (t.resetWith true) (fun op hop => hno op (List.mem_cons_of_mem _ hop))
-      (.nil 0) rfl (by simp only [List.length_nil]; omega)
-    exact ⟨t2, by simp only [Tree.runWith, Tree.stepWith, h2], hst2, hc2⟩
-  | .load k :: ops, _, _, hno, _, _, _ => by
-    have := hno (.load k) (List.mem_cons_self)
-    simp [Op.isLoad] at this
+theorem absRun_length_le : ∀ (ops : List Op) (L : List Bytes), (absRun L ops).length ≤ L.length + ops.length
+  | [], L => by simp [absRun]
+  | op :: ops, L => by
+    have := absRun_length_le ops (absStep L op)
+    cases op <;> simp only [absRun, absStep, List.length_append, List.length_cons, List.length_nil, List.length_take] at * <;> omega
 
-/-- **root, leaf count and refusal of out-of-range proofs after ANY history of pushes and resets**
-(unbounded length; reset as fixed): the tree reports the root of a fresh tree over the leaves pushed
-since the last reset, their number as leaf count, and refuses every proof index ≥ that number.
-(Partial with respect to `C11Statement`: histories containing `load`, and equality of the proofs for
-in-range indices, are in `…_partial`/bounded theorems below and in stream c11.) -/
-theorem history_root_count_refusal_partial (H : HashFn) (hE : H [] = emptySum) (storage0 : Storage) (ops : List Op)
-    (hlen : ops.length < 2 ^ 63) (hno : ∀ op ∈ ops, op.isLoad = false) :
-    ∃ t, Tree.runWith true H (Tree.new storage0) ops = .ok t ∧
-      t.root H = .ok (mth H (absRun [] ops)) ∧
-      t.leavesCount = (absRun [] ops).length ∧
-      ∀ i, (absRun [] ops).length ≤ i → t.prove H i = .error (.invalidProofIndex i) := by
-  obtain ⟨t, hrun, hst, hc⟩ := run_inv H ops [] (Tree.new storage0) hno (.nil 0) rfl (by simpa using hlen)
+/-- the invariant `TreeInv` (stack = MMR peaks, count, storage records every complete aligned block)
+is preserved by every operation of a history whose reloads are at recorded counts -/
+theorem run_treeInv (H : HashFn) : ∀ (ops : List Op) (L : List Bytes) (t : Tree),
+    TreeInv H L t → L.length + ops.length < 2 ^ 63 → LoadsRecorded L ops →
+    ∃ t', Tree.runWith true H t ops = .ok t' ∧ TreeInv H (absRun L ops) t'
+  | [], L, t, inv, _, _ => ⟨t, rfl, inv⟩
+  | .push d :: ops, L, t, inv, hb, hl => by
+    simp only [List.length_cons] at hb
+    obtain ⟨t1, h1, inv1⟩ := inv.push d (by omega)
+    obtain ⟨t2, h2, inv2⟩ := run_treeInv H ops (L ++ [d]) t1 inv1
+      (by simp only [List.length_append, List.length_singleton]; omega) hl
+    exact ⟨t2, by simp only [Tree.runWith, Tree.stepWith, h1, h2], inv2⟩
+  | .reset :: ops, L, t, inv, hb, hl => by
+    simp only [List.length_cons] at hb
+    obtain ⟨t2, h2, inv2⟩ := run_treeInv H ops [] (t.resetWith true) inv.reset
+      (by simp only [List.length_nil]; omega) hl
+    exact ⟨t2, by simp only [Tree.runWith, Tree.stepWith, h2], inv2⟩
+  | .load k :: ops, L, t, inv, hb, hl => by
+    simp only [List.length_cons] at hb
+    obtain ⟨hk, hl'⟩ := hl
+    obtain ⟨t1, h1, inv1⟩ := inv.load (by omega) k hk
+    obtain ⟨t2, h2, inv2⟩ := run_treeInv H ops (L.take k) t1 inv1
+      (by simp only [List.length_take]; omega) hl'
+    exact ⟨t2, by simp only [Tree.runWith, Tree.stepWith, h1, h2], inv2⟩
+
+/-- a tree satisfying the invariant is indistinguishable from a fresh tree over the same leaves -/
+theorem freshLike_of_inv (H : HashFn) (hE : H [] = emptySum) {D : List Bytes} {t : Tree} (inv : TreeInv H D t)
+    (hb : D.length < 2 ^ 63) : FreshLike H D t :=
+  ⟨inv.root hE hb, inv.count, inv.prove_refuses, inv.prove hb⟩
+
+/-- the in-memory wrapper (`in_memory::MerkleTree::prove` = `.ok()` of the tree's answer): `Some` of the
+fresh tree's proof below the count, `None` at or beyond it -/
+theorem inmem_prove_of_inv (H : HashFn) {D : List Bytes} {t : Tree} (inv : TreeInv H D t) (hb : D.length < 2 ^ 63)
+    (i : Nat) : t.proveOpt H i = .ok (if i < D.length then some (mth H D, auditPath H i D) else none) := by
+  unfold Tree.proveOpt
+  by_cases hi : i < D.length
+  · rw [inv.prove hb i hi, if_pos hi]
+  · rw [inv.prove_refuses i (by omega), if_neg hi]
+
+/-- **C11, in full**: after ANY history of pushes, resets and reloads at recorded counts (unbounded
+length; `reset` as fixed), over ANY initial storage contents, the tree reports the root, the leaf
+count and — for every index — the proof or the refusal of a fresh tree over the abstract leaves;
+root = RFC 6962 tree hash, proofs = RFC 6962 audit paths. -/
+theorem c11_holds : C11Statement := by
+  intro H hE storage0 ops hlen hl
+  obtain ⟨t, hrun, inv⟩ := run_treeInv H ops [] (Tree.new storage0) (TreeInv.new H storage0) (by simpa using hlen) hl
   have hn : (absRun [] ops).length < 2 ^ 63 := by
-    have : ∀ (ops : List Op) (L : List Bytes), (absRun L ops).length ≤ L.length + ops.length := by
-      intro ops
-      induction ops with
-      | nil => intro L; simp [absRun]
-      | cons op ops ih =>
-        intro L
-        have := ih (absStep L op)
-        cases op <;> simp only [absRun, absStep, List.length_append, List.length_cons, List.length_nil, List.length_take] at * <;> omega
-    have := this ops []
+    have := absRun_length_le ops []
     simp only [List.length_nil] at this
     omega
-  refine ⟨t, hrun, ?_, hc, ?_⟩
-  · rw [treeRoot_stk (segOk_mth H) (Nat.le_refl 1) hst hn]
-    by_cases h : absRun [] ops = []
-    · rw [h, if_pos rfl, mth, hE]
-    · rw [if_neg h]
-  · intro i hi
-    unfold Tree.prove
-    rw [if_pos (by omega)]
+  exact ⟨t, hrun, freshLike_of_inv H hE inv hn⟩
+
+/-- the literal reading "same as a freshly built tree": a fresh tree is the history of pushes only -/
+theorem fresh_tree_is_freshLike (H : HashFn) (hE : H [] = emptySum) (D : List Bytes) (hn : D.length < 2 ^ 63) :
+    ∃ t, Tree.runWith true H (Tree.new []) (D.map Op.push) = .ok t ∧ FreshLike H D t := by
+  have hl : ∀ (D L : List Bytes), LoadsRecorded L (D.map Op.push) := by
+    intro D; induction D with
+    | nil => intro L; trivial
+    | cons d D ih => intro L; exact ih _
+  have habs : ∀ (D L : List Bytes), absRun L (D.map Op.push) = L ++ D := by
+    intro D; induction D with
+    | nil => intro L; simp [absRun]
+    | cons d D ih => intro L; simp [absRun, absStep, ih]
+  obtain ⟨t, hrun, hf⟩ := c11_holds H hE [] (D.map Op.push) (by simpa using hn) (hl D [])
+  rw [habs D []] at hf
+  exact ⟨t, hrun, by simpa using hf⟩
 
 /-! ### negative witnesses on the code without the fix (F4) -/
 
@@ -148,10 +166,21 @@ theorem reset_with_fix_witness :
 
 /-! ### non-vacuity -/
 
-example : ∃ t, Tree.runWith true toyHash (Tree.new []) f4History = .ok t ∧
-    t.root toyHash = .ok (mth toyHash [[4]]) ∧ t.leavesCount = 1 ∧
-    ∀ i, 1 ≤ i → t.prove toyHash i = .error (.invalidProofIndex i) := by
-  have := history_root_count_refusal_partial toyHash rfl [] f4History (by decide) (by decide)
-  simpa [absRun, absStep, f4History] using this
+def sampleHistory : List Op :=
+  [.push [1], .push [2], .push [3], .load 2, .push [5], .reset, .push [6], .push [7], .push [8], .load 3, .load 1, .push [9]]
+
+example : LoadsRecorded [] sampleHistory := by
+  simp [sampleHistory, LoadsRecorded, absStep]
+
+example : absRun [] sampleHistory = [[6], [9]] := by decide
+
+example : ∃ t, Tree.runWith true toyHash (Tree.new []) sampleHistory = .ok t ∧ FreshLike toyHash [[6], [9]] t := by
+  have := c11_holds toyHash rfl [] sampleHistory (by decide) (by simp [sampleHistory, LoadsRecorded, absStep])
+  simpa [sampleHistory, absRun, absStep] using this
+
+/-- kernel-evaluated: the model really computes the proof `[leaf hash of 6]` for index 1 after that history -/
+example : proveShape toyHash 1 (Tree.runWith true toyHash (Tree.new []) sampleHistory) = "ok 1" ∧
+    proveShape toyHash 2 (Tree.runWith true toyHash (Tree.new []) sampleHistory) = "InvalidProofIndex" := by
+  decide
 
 end FuelVerif.BMT
